@@ -200,7 +200,7 @@ const prelude = `(set-option :produce-models true)
 (declare-fun strat (Str Int) Int)
 (declare-const str.empty Str)
 (declare-const f64.zero F64)
-(assert (forall ((s Str)) (! (>= (strlen s) 0) :pattern ((strlen s)))))
+(assert (forall ((s Str)) (! (and (>= (strlen s) 0) (<= (strlen s) 1152921504606846976)) :pattern ((strlen s)))))
 (assert (forall ((s Str) (i Int)) (! (and (<= 0 (strat s i)) (<= (strat s i) 255)) :pattern ((strat s i)))))
 (assert (= (strlen str.empty) 0))
 (assert (forall ((s Str)) (! (=> (= (strlen s) 0) (= s str.empty)) :pattern ((strlen s)))))
